@@ -7,7 +7,7 @@ numeric constant change, negated `if` test, deleted simple statement, swapped ca
 scratch copy of /repo/src (source-level edit of the node's text span) and the quick checks of the properties that anchor the file are run
 on the copy (--root).  One JSON line per mutant: file, line, kind, before/after text, enclosing function, checks fired / errored.
 Survivors are candidates for triage by reading (equivalent mutant, outside every property, or a blind spot) - a ranking aid, never a verdict.
-VERIF_SNAPSHOT=<copy of /verif> runs the checkers of that copy."""
+VERIF_SNAPSHOT=<copy of /verif> runs the checkers of that copy; MUT_REPLAY=<earlier out.jsonl> re-runs exactly the mutants recorded there."""
 import ast, json, os, random, shutil, subprocess, sys, tempfile
 from concurrent.futures import ThreadPoolExecutor
 from pathlib import Path
@@ -166,6 +166,16 @@ for rel, props in sorted(anch.items()):
     random.shuffle(ms)
     for m in ms[:per_file]:
         jobs.append((rel, props, src, m))
+if os.environ.get("MUT_REPLAY"):      # re-run exactly the mutants recorded in an earlier output (after the checks were strengthened)
+    jobs, cache = [], {}
+    for l in open(os.environ["MUT_REPLAY"]):
+        r = json.loads(l)
+        if r["file"] not in cache:
+            cache[r["file"]] = mutants_of(f"/repo/{r['file']}")
+        src, ms = cache[r["file"]]
+        m = next((m for m in ms if all(m[k] == r[k] for k in ("line", "kind", "before", "after", "func"))), None)
+        if m is not None:
+            jobs.append((r["file"], anch.get(r["file"], r["props"]), src, m))
 print(f"{len(jobs)} mutants over {len({j[0] for j in jobs})} files", flush=True)
 with open(out_path, "w") as fo, ThreadPoolExecutor(max_workers=workers) as ex:
     for rec in ex.map(run_one, jobs):
